@@ -197,7 +197,8 @@ func TestC19(t *testing.T) {
 								case 0:
 									fmt.Fprintf(&src, "%s v%d = %s();\n", bn.KwVar, i, bn.BInput)
 								case 1:
-									fmt.Fprintf(&src, "%s v%d = %s(\"P%d> \");\n", bn.KwVar, i, bn.BInput, i)
+									prompt := []string{fmt.Sprintf("P%d> ", i), "100% sure? ", "%s %d %v %%> ", "rate %", "%!(x)"}[(int(k)+i)%5]
+									fmt.Fprintf(&src, "%s v%d = %s(\"%s\");\n", bn.KwVar, i, bn.BInput, prompt)
 								default:
 									fmt.Fprintf(&src, "%s \"before-%d\";\n%s v%d = %s(\"\");\n", P, i, bn.KwVar, i, bn.BInput)
 								}
